@@ -49,20 +49,23 @@ def _sanitize_attrs_nc(dt: xr.DataTree) -> xr.DataTree:
     sanitized_types = (dict, list, bool, type(None))
     for node in dt.subtree:
         for key, attr in node.attrs.items():
-            if isinstance(attr, sanitized_types):
-                node.attrs[key] = str(attr)
+            if isinstance(attr, sanitized_types) or _should_desanitize(attr):
+                node.attrs[key] = repr(attr)
         for v in node.variables:
             for key, attr in node[v].attrs.items():
-                if isinstance(attr, sanitized_types):
-                    node[v].attrs[key] = str(attr)
+                if isinstance(attr, sanitized_types) or _should_desanitize(attr):
+                    node[v].attrs[key] = repr(attr)
     return dt
 
 
 def _should_desanitize(attr: Any) -> bool:
-    if isinstance(attr, str):
+    # Strings that read like an encoded value (including quoted strings) are
+    # themselves written as their repr, so that decoding returns them unchanged
+    if isinstance(attr, str) and len(attr) > 0:
         if (
             (attr[0] == "{" and attr[-1] == "}")
             or (attr[0] == "[" and attr[-1] == "]")
+            or (attr[0] in "'\"" and attr[-1] == attr[0] and len(attr) > 1)
             or (attr in ["True", "False"])
             or (attr == "None")
         ):
